@@ -18,8 +18,8 @@ LEVEL = {
          "distinct positions per property at 0% (duplicates at 0% are left open by the property)", TECH % (" and Apalache", "")),
  "C11": ("model_checking", "6 C11", "The builder state machine adds keyframes in every order; OrderFree invariant; the as-found defect (boundary times before the sort) is a negative control that TLC must refute; every behaviour with non-ascending insertion order is replayed.",
          "<=3 keyframes exhaustive, <=6 pseudo-random", TECH % ("", "")),
- "C04": ("model_checking", "6 C04", "NoJump is an action property model-checked over all histories to the stated depth on 5 configurations (the as-found stale-pause defect is a negative control TLC must refute); every history is replayed on a real animator and current_values is compared bit for bit immediately before and after every set_state.",
-         "tick >= 1/8 s; configuration pool of MC_Animator.tla (leg A) and random configurations (leg B); distinct keyframe positions per property", TECH % ("", " and by TLC validating logs of real animators with random configurations (leg B)")),
+ "C04": ("model_checking", "6 C04", "NoJump is an action property model-checked over all histories to the stated depth on 8 configurations (the as-found stale-pause defect is a negative control TLC must refute); every history is replayed on a real animator and current_values is compared bit for bit immediately before and after every set_state.",
+         "tick >= 1/8 s exactly, tolerance passes at 1/64 s, 0.1 s and 512 ns; configuration pool of MC_Animator.tla (leg A) and random configurations (leg B); distinct keyframe positions per property", TECH % ("", " and by TLC validating logs of real animators with random configurations (leg B)")),
  "C05": ("model_checking", "6 C05", "Consistent + PauseRules model-checked over all histories; replay compares after every operation current_state, current_values against exact terms, and through the cfg(mina_verif) hook the internal clock and pause record.",
          "as C04", TECH % ("", " and by TLC validating logs of real animators with random configurations (leg B)")),
  "C06": ("model_checking", "6 C06", "In the model values are a function of (state, override, total ticks) (Consistent), so any partition gives the same result; in the replay a twin animator receives each advance split into 0 + a + b + 0 and must stay bit-identical (values, is_ended, clock, pause record), including after a 2^24-tick advance followed by single-tick frames.",
@@ -27,7 +27,7 @@ LEVEL = {
  "C07": ("model_checking", "6 C07", "EndedIff / EndedStable / TerminalWhenEnded / NeverEndedIfInfinite model-checked over all histories incl. advances landing exactly on the total duration; AfterTotalConstant unbounded in Apalache; is_ended compared after every replayed operation.",
          "as C04; total durations on the exact tick grid", TECH % (" and Apalache", " and by TLC validating logs of real animators with random configurations (leg B)")),
  "C18": ("model_checking", "6 C18", "Every clause of C18 is an action property of the animate step in Bevy.tla, model-checked over all schedules x system orders (phase-skip defect is a negative control); TLC-enumerated and random schedules are run in a real App and TLC validates the logs; component contents are re-evaluated with the real timelines at the predicted evaluation points.",
-         "tick = 1/8 s; 6 entity configurations + random ones from a pool of 10 timelines; component values judged via the real Timeline::update", TECH % ("", " and by TLC validating traces recorded from a real Bevy App (leg B)")),
+         "tick = 1/8 s; 7 entity configurations + random ones from a pool of 14 timelines; component values judged via the real Timeline::update before the end and against terminal values stated with the pool at or after it", TECH % ("", " and by TLC validating traces recorded from a real Bevy App (leg B)")),
  "C19": ("model_checking", "6 C19", "Select/chain steps carry the C19 clauses as action properties (untyped-event defect is a negative control); real App logs with selector, chain (incl. cycles) and one or two animated component types are validated by TLC with the system order left open.",
          "as C18; chain judged by the governed animator's state (see DESIGN)", TECH % ("", " and by TLC validating traces recorded from a real Bevy App (leg B)")),
  "C09": ("model_checking", "6 C09", "The spec's timeline object is immutable under update and its result a function of (components, override, time); TLC generates histories of update (non-monotone times, different prior target contents) / start_with / clone with predictions, replayed on real objects together with idempotence and prior-content independence checks and metadata after every operation.",
